@@ -21,6 +21,7 @@ from hpstatic.interp import Interp
 from hpstatic.loader import AnalysisError
 from hpstatic.terms import sym, intern, show, subterms, calls_in, kw
 from hpstatic.weights import Weigher, ANY, NA, UNK, ZERO
+from .common import call_args, term_args
 from .theories import all_configs, run_config, sink_calls, IFQ
 
 MUTATION_TARGETS = {'holopy/scattering/imageformation.py': ['_get_field_from', '_transform_to_desired_coordinates', 'get_wavevec_from', 'calculate_scattering_matrix', 'calculate_cross_sections'], 'holopy/scattering/theory/mie.py': ['_scat_coeffs', 'raw_fields', 'raw_scat_matrs', 'raw_cross_sections'], 'holopy/scattering/theory/multisphere.py': ['_scsmfo_setup', 'raw_fields', 'raw_cross_sections', '_calc_cext', '_calc_cscat', '_calc_asym'], 'holopy/scattering/theory/tmatrix.py': ['_parse_args', '_run_tmat', 'raw_fields'], 'holopy/scattering/theory/mielens.py': ['raw_fields'], 'holopy/scattering/theory/lens.py': ['raw_fields', '_integrand_prefactor', '_compute_integrand', '_calc_scattering_matrix']}
@@ -278,7 +279,7 @@ def interface_level(check, prog):
     calls = [c for c in it.calls if c['name'].endswith('calculate_cross_sections')]
     check.floor('calculate_cross_sections call sites', len(calls), 1)
     for c in calls:
-        kws = dict(c['kwargs'])
+        kws = call_args(prog, c)
         for g, seeds, want_k, want_n in (('L', {'illum_wavelen': F(1), 'medium_index': ZERO},
                                           F(-1), ZERO),
                                          ('N', {'illum_wavelen': F(1), 'medium_index': F(1)},
